@@ -54,6 +54,8 @@ pub fn read_all<R: Read>(r: &mut R, sizes: &[u32], cap: usize) -> io::Result<Vec
                 if n > want {
                     return Err(io::Error::other("read returned more than the buffer holds"));
                 }
+                // a sticky Interrupted is a run of them: progress in between resets the count
+                interrupted = 0;
                 out.extend_from_slice(&buf[..n]);
                 if out.len() > cap {
                     return Err(io::Error::other("VERIF-CAP"));
